@@ -674,14 +674,14 @@ func (fr *Frame) evalCall(e *CExpr, env *Env, hint *Sort) *GVal {
 				return tv(t)
 			}
 			// no such call on this path: arbitrary
-			s := hint
+			s := ex.p.ghostSorts[key]
 			if s == nil {
-				s = ex.p.ghostSorts[key]
+				s = hint
 			}
 			if s == nil {
 				s = SVal
 			}
-			return tv(ex.p.NamedConst(strings.ReplaceAll(key, ":", ".")+"@no_call_"+ex.fname0(), s))
+			return tv(ex.p.NamedConst(strings.ReplaceAll(key, ":", ".")+"@no_call_"+sortIdent(s)+"_"+ex.fname0(), s))
 		}
 	case "deref":
 		g := fr.evalC(e.Args[0], env, nil)
